@@ -156,11 +156,12 @@ def describe(e):
     return '%s | %s : decode value -> %s ; tovalue -> %s [%s]' % (short_v(e['v'])[:200], e['text'], short_r(e['dv'])[:160], short_r(e['jv'])[:160], e['src'][:120])
 
 
-def confirm(ctx, binp, qs, e):
+def confirm(ctx, binp, qs, e, sequence=False):
     """Re-run one rejected (value, query) pair alone (G1): a corpus node is decoded again from its file, any other
-    value is rebuilt from its description."""
+    value is rebuilt from its description. sequence=True: re-run every query, in the original order, on one freshly built
+    value and report the rejection of THIS query (a difference that needs the earlier read-only queries to show)."""
     cp = os.path.join(ctx.build, 'confirm_cases.ndjson'); ep = os.path.join(ctx.build, 'confirm_events.ndjson')
-    write_cases(cp, collections.OrderedDict([(e['q'], e['text'])]), [e['v']])
+    write_cases(cp, qs if sequence else collections.OrderedDict([(e['q'], e['text'])]), [e['v']])
     m = re.match(r'(/.*) -d (\S+) (\[.*\])$', e['src'])
     if m:
         jp = os.path.join(ctx.build, 'confirm_job.ndjson')
@@ -172,6 +173,11 @@ def confirm(ctx, binp, qs, e):
     if not evs:
         return e, None
     rej, _ = tv_view(ctx, evs, 'tv_confirm', demo=True)
+    if sequence:
+        for k, x in enumerate(evs):
+            if x['q'] == e['q'] and k in rej:
+                return x, rej[k]
+        return e, None
     return evs[0], rej.get(0)
 
 
@@ -336,7 +342,15 @@ def run(ctx):
         e = ev[idx[0]]
         e2_, sig2 = confirm(ctx, binp, qs, e)
         if sig2 is None:
-            ctx.inconc('rejected pair did not reproduce when re-run alone (sig %s): %s' % (sig, describe(e)))
+            # not reproducible alone: does it need the earlier (read-only) queries on the same value? Twice, to rule out chance.
+            r1 = confirm(ctx, binp, qs, e, sequence=True)
+            r2 = confirm(ctx, binp, qs, e, sequence=True)
+            if r1[1] is not None and r2[1] is not None:
+                ctx.finding('view.changed_by_earlier_readonly_query.' + e['q'],
+                            'only after the earlier read-only queries ran on the same decode value (alone the pair agrees): ' + describe(r1[0]),
+                            dict(event=r1[0], one_line='run the read-only query list of checks/c08.py in order on one decode value; query %s then differs from the same on tovalue' % json.dumps(e['text'])))
+                continue
+            ctx.inconc('rejected pair did not reproduce when re-run alone or in sequence (sig %s): %s' % (sig, describe(e)))
             continue
         for i in idx:
             x = ev.get(i, e)
